@@ -1,8 +1,8 @@
 PROP = dict(
-  units=['nq', 'scq'],
+  units=['nq', 'scq', 'cxxstatic:queues'],
   level='other',
   strict_obligations=True,
-  obligations=['nq.scq.requires', 'nq.guard.protected', 'nq.node_ctor.inv', 'nq.inv.preserved', 'nq.push.appends', 'nq.push.rollback', 'nq.push.finalizes',
+  obligations=['static.queues.no_use_after_move', 'nq.scq.requires', 'nq.guard.protected', 'nq.node_ctor.inv', 'nq.inv.preserved', 'nq.push.appends', 'nq.push.rollback', 'nq.push.finalizes',
                'nq.push.publish_order', 'nq.push.hand_over', 'nq.pop.empty_iff', 'nq.pop.takes_first', 'nq.pop.empty_validated', 'nq.pop.hand_over',
                'nq.pop.threshold_reset', 'nq.pop.retire_once', 'nq.commit', 'nq.own.exactly_once',
                'scq.enqueue.appends', 'scq.enqueue.finalized_fails', 'scq.dequeue.takes_first', 'scq.dequeue.empty_iff', 'scq.inv.preserved',
@@ -10,7 +10,7 @@ PROP = dict(
   explanation='Sequential FIFO refinement per operation from any invariant state (node/ring state symbolic), node hand-over and finalisation, commit-point validation in INT mode, '
               'on the extracted text of nikolaev_queue / nikolaev_scq (michael_scott_queue and ramalhete_queue units are added below when present). '
               'Linearizability of concurrent histories is the assumed composition lemma.',
-  assumptions=['composition lemma: linearizability of Michael-Scott, Ramalhete/Correia (FAAArrayQueue) and Nikolaev (SCQ/LSCQ) queues from the per-operation contracts',
+  assumptions=['supporting static fact (clang-tidy bugprone-use-after-move on instantiations of the real templates, unit cxxstatic): heuristic check, covers the value-category semantics (std::move) that the C lowering drops', 'composition lemma: linearizability of Michael-Scott, Ramalhete/Correia (FAAArrayQueue) and Nikolaev (SCQ/LSCQ) queues from the per-operation contracts',
                'guard_ptr operations are stubs by contract (acquire = snapshot + protect, acquire_if_equal iff equal, reclaim = retire once), proved per reclaimer in the reclaimer units',
                'shapes: at most 2 linked nodes + 1 spare, SCQ capacity {1,2} (thorough 4)'],
   trusted_base=[],
